@@ -208,7 +208,9 @@ def eval_case(ctx, exe, case, status_of, deep=True):
         back = ["SOLUTION_MODIFY 1", f" -total_h {sol['total_h']}", f" -total_o {sol['total_o']}", f" -cb {sol['cb']}", " -totals"]
         back += [f"  {el} {v}" for el, v in tot.items()]
         idx["mod"] = len(ops2)
-        ops2 += [f"run M {hx(chr(10).join(pert) + chr(10) + 'END' + chr(10))}", f"run M {hx(chr(10).join(back) + chr(10) + 'END' + chr(10))}",
+        # (a perturb-then-restore variant was tried: it leaves pH of unbuffered waters different at ~1e-6, the size of the solver's own
+        #  convergence noise from other starting guesses, so only the restoring MODIFY itself is judged)
+        ops2 += ["run M " + hx("END" + chr(10)), f"run M {hx(chr(10).join(back) + chr(10) + 'END' + chr(10))}",
                  f"run M {hx(text0)}", "sel M"]
     out, rc, err = run_ops(ctx, exe, ops2)
     if rc != 0 or len(out) < len(ops2):
@@ -234,6 +236,9 @@ def eval_case(ctx, exe, case, status_of, deep=True):
             for p in sorted(set(f1) | set(f2)):
                 if f1.get(p) == f2.get(p):
                     continue
+                comp = p.split("/")[0]
+                if k[0] in ("EXCHANGE_RAW", "SURFACE_RAW") and (f1.get(comp + "/phase_name") or f1.get(comp + "/rate_name")):
+                    continue        # amounts of a component tied to a phase / kinetic reactant are re-derived from it when read (tidy)
                 st = status_of(KW2TAB[k[0]], p)
                 if f1.get(p) is None and st.endswith("+guarded"):
                     continue        # written only under a condition on its own member: absent first, fresh value afterwards
@@ -422,10 +427,6 @@ MIN_CASES = {
         setup="SOLUTION 1\n temp 60\n Na 1\n Cl 1\nEND\nGAS_PHASE 1\n -fixed_volume\n -volume 1\n -temperature 40\n CH4(g) 0.005\n H2O(g) 0.03\n"
               "END\nUSE solution 1\nUSE gas_phase 1\nREACTION 5\n NaCl 1\n 0.0005\nSAVE solution 1\nSAVE gas_phase 1\nEND\n",
         followups=[("use", SEL_GAS + "USE solution 1\nUSE gas_phase 1\nREACTION 9\n HCl 1\n 0.001\nEND\n")]),
-    "exchange-on-empty-phase-two-cycles": dict(db="phreeqc.dat", adds="", kinds=["exch", "pp"], feat=["exch:phase-related"], react=True,
-        setup="SOLUTION 1\n K 2.4\n Cl 0.4\nEND\nEQUILIBRIUM_PHASES 1\n Calcite 0 Ca(OH)2 0.1\nEXCHANGE 1\n X Calcite equilibrium_phase 0.05\n"
-              " -equilibrate 1\nEND\nUSE solution 1\nUSE exchange 1\nUSE equilibrium_phases 1\nSAVE exchange 1\nSAVE equilibrium_phases 1\nEND\n",
-        followups=[("use", "USE solution 1\nUSE exchange 1\nUSE equilibrium_phases 1\nEND\n")]),
     "copy-constructor-pitzer": dict(db="pitzer.dat", adds="", kinds=[], feat=[], react=False,
         setup="SOLUTION 1\n Na 1\n Cl 1\nEND\n", followups=[("use", "USE solution 1\nEND\n")]),
 }
@@ -518,6 +519,7 @@ def run(ctx):
     seen_classes = set()
     iso_replay = None
     sig_seen = {}
+    routed = set()
     for c, r in zip(cases, results):
         if r.get("lag"):
             sig_seen.setdefault("gas-phase-first-step-lag", []).append(r["lag"][0])
@@ -527,6 +529,9 @@ def run(ctx):
         sg = signature(c, None, p)
         if sg:
             sig_seen.setdefault(sg, []).append(p[1][:160])
+            if sg not in MIN_CASES and sg not in routed:
+                routed.add(sg)
+                ctx.finding(sg, p[1][:300], {"case": c, "problem": list(p)})
             continue
         if isotope_related(c, p) and any(d[0] in ("Solution", "SolutionIsotope") for d in static):
             if iso_replay is None:
